@@ -262,4 +262,35 @@ example : ∃ p : Net Nat, ReachableP 0 p ∧ p.cancelled = true ∧ procNext p 
   rintro ⟨q, v, hq⟩
   simp [envNext, handoff, a0, a1, a2, a3, a4, a5, a6, a7, a8, a9, a10, a11, a12, init] at hq
 
+/-! ## Pairs created under a done context -/
+
+/-- Every start state of a `pre=1 presend=…` script (context cancelled and values sent before the pump's first step) is
+a reachable state of the polite network: all invariants and liveness theorems above apply to such runs. -/
+theorem preStart_reachable {cap : Nat} (vs : List α) : ∀ p ∈ preStart cap vs, ReachableP cap p := by
+  unfold preStart
+  have key : ∀ (vs : List α) (sts : List (Net α)), (∀ p ∈ sts, ReachableP cap p) →
+      ∀ p ∈ vs.foldl (fun sts v => sts.flatMap fun p =>
+        ((envNext p (.send v)).filter fun qo => match qo.2 with | .ok => true | _ => false).map (·.1)) sts,
+        ReachableP cap p := by
+    intro vs
+    induction vs with
+    | nil => intro sts h p hp; exact h p (by simpa using hp)
+    | cons v vs ih =>
+      intro sts h
+      simp only [List.foldl_cons]
+      apply ih
+      intro q hq
+      simp only [List.mem_flatMap, List.mem_map, List.mem_filter] at hq
+      obtain ⟨p, hp, ⟨q', o⟩, ⟨hmem, _⟩, rfl⟩ := hq
+      exact .step (h p hp) (Or.inr ⟨.send v, o, trivial, hmem⟩)
+  apply key
+  intro p hp
+  simp only [List.mem_map] at hp
+  obtain ⟨⟨q, o⟩, hmem, rfl⟩ := hp
+  exact .step .init (Or.inr ⟨.cancel, o, trivial, hmem⟩)
+
+/-- …and it is what one expects: cancelled, the pump at its first control point, the sends that completed in the buffer. -/
+example : (preStart (α := Nat) 2 [7, 8]).map (fun p => (p.cancelled, p.inp.buf, p.sent)) = [(true, [7, 8], [7, 8])] := by
+  decide
+
 end Golem.Props.C08
